@@ -4,92 +4,96 @@
    regenerates from /repo on every run; V is an arbitrary type of element values (any dtype; NaN, inf, -0.0
    are tokens).
 
-   Full statement of the npz round trip (what C14 demands):
-       forall x, wf x = true -> (ms <- save_members x ;; load_members ms) = Ok x.
-   It is FALSE of the code as it stands (finding D9), see npz_roundtrip_refuted* : a GCXS whose
-   compressed_axes is None (0-d / 1-d) is written with an object-array member that np.load(allow_pickle=False)
-   refuses (ValueError), and for the CSR / CSC subclasses `type(matrix) is GCXS` is false, so indices / indptr /
-   compressed_axes are never written (RuntimeError at load).  The proved part is npz_roundtrip_partial under the
-   two named domain clauses.
+   save_npz / load_npz (after the repairs of /repo commit a36d130; the former domain clauses D9_gcxs_1d and
+   D9_csr_csc_subclass are gone): the round trip is proved in FULL for every well-formed COO and every GCXS-family
+   array, 0-d / 1-d (compressed_axes None), n-d, CSR and CSC; a CSR / CSC comes back as a plain GCXS with the same
+   fields ([as_saved]).
+
+   Full statement of the missing-member property (what C14 demands):
+       forall x ms keep, save_members x = Ok ms -> (some member is not kept) -> load_members (restrict keep ms) raises.
+   It is FALSE of the code as it stands: the `compressed_axes` member became optional on the load side, so a file of
+   an n-d GCXS that lacks exactly that member loads as a GCXS whose compressed_axes is None
+   (npz_missing_member_refuted); proved under the clause mm_axes_kept (npz_missing_member_partial).
 
    Full statement of the Numba round trip:
        forall dt c, shape_ok c -> canonicalb c = true -> nb_roundtrip dt c = Ok (ACoo c).
-   FALSE as well: COOType.shape_type types the shape tuple with the *coordinate* dtype, so an extent that does
-   not fit that dtype is reduced modulo 2^w (numba_boxing_roundtrip_refuted: shape (300,) with int8 coordinates
-   comes back as shape (44,)); proved under the clause nb_shape_fits. *)
+   FALSE: COOType.shape_type types the shape tuple with the *coordinate* dtype, so an extent that does not fit that
+   dtype is reduced modulo 2^w (numba_boxing_roundtrip_refuted: shape (300,) with int8 coordinates comes back as
+   shape (44,)); proved under the clause nb_shape_fits. *)
 From Coq Require Import ZArith List Bool String.
 From Verif Require Import Py Shape COO S_npz Npz NpzP.
 Import ListNotations.
 Open Scope Z_scope.
 
 (* ---- save_npz / load_npz at the level of members *)
-Theorem npz_roundtrip_partial :
+Theorem npz_roundtrip :
   forall (V : Type) (x : arr V),
-    wf V x = true -> d9_gcxs_1d V x = true -> d9_csr_csc_subclass V x = true ->
+    wf V x = true -> (ms <- save_members V x ;; load_members V ms) = Ok (as_saved V x).
+Proof. exact npz_roundtrip_proof. Qed.
+Print Assumptions npz_roundtrip.
+
+(* COO and exact GCXS come back as themselves *)
+Theorem npz_roundtrip_exact :
+  forall (V : Type) (x : arr V),
+    wf V x = true -> (class_of x = KCOO \/ class_of x = KGCXS) ->
     (ms <- save_members V x ;; load_members V ms) = Ok x.
-Proof. exact npz_roundtrip_partial_proof. Qed.
-Print Assumptions npz_roundtrip_partial.
+Proof. exact npz_roundtrip_exact_proof. Qed.
+Print Assumptions npz_roundtrip_exact.
 
-Example npz_roundtrip_partial_nonvacuous :
-  Forall (fun x => wf Z x = true /\ d9_gcxs_1d Z x = true /\ d9_csr_csc_subclass Z x = true)
-         [w_coo; w_coo_0d; w_gcxs_3d].
-Proof. exact npz_partial_nonvacuous. Qed.
-
-Theorem npz_roundtrip_refuted :
-  exists x : arr Z, wf Z x = true /\ (ms <- save_members Z x ;; load_members Z ms) <> Ok x.
-Proof. exact npz_roundtrip_refuted_proof. Qed.
-Print Assumptions npz_roundtrip_refuted.
-
-(* the witnesses, with the outcome the model predicts (replayed against the implementation by the campaign) *)
-Theorem npz_roundtrip_refuted_gcxs_1d :
-  wf Z w_gcxs_1d = true /\ (ms <- save_members Z w_gcxs_1d ;; load_members Z ms) = Raise ValueError.
-Proof. exact npz_roundtrip_refuted_gcxs_1d_proof. Qed.
-Print Assumptions npz_roundtrip_refuted_gcxs_1d.
-
-Theorem npz_roundtrip_refuted_csr :
-  wf Z w_csr = true /\ (ms <- save_members Z w_csr ;; load_members Z ms) = Raise RuntimeError.
-Proof. exact npz_roundtrip_refuted_csr_proof. Qed.
-Print Assumptions npz_roundtrip_refuted_csr.
-
-Theorem npz_roundtrip_refuted_csc :
-  wf Z w_csc = true /\ (ms <- save_members Z w_csc ;; load_members Z ms) = Raise RuntimeError.
-Proof. exact npz_roundtrip_refuted_csc_proof. Qed.
-Print Assumptions npz_roundtrip_refuted_csc.
+Example npz_roundtrip_nonvacuous_example :
+  Forall (fun x => wf Z x = true) [w_coo; w_coo_0d; w_gcxs_1d; w_gcxs_3d; w_csr; w_csc]
+  /\ (ms <- save_members Z w_csr ;; load_members Z ms)
+     = Ok (AGcxs KGCXS (mkGCXS [2; 3] (Some [0]) [5; 6] [1; 2] [0; 1; 2] 0)).
+Proof. exact npz_roundtrip_nonvacuous. Qed.
 
 (* a file that holds only some of the members save_npz writes is rejected, never loaded as another array *)
-Theorem npz_missing_member_rejected :
+Theorem npz_missing_member_partial :
   forall (V : Type) (x : arr V) (ms : members V) (keep : string -> bool),
+    class_ok V x = true ->
     save_members V x = Ok ms ->
     (exists n, In n (map fst ms) /\ keep n = false) ->
+    mm_axes_kept V x keep = true ->
     exists e, load_members V (restrict V keep ms) = Raise e.
-Proof. exact npz_missing_member_rejected_proof. Qed.
-Print Assumptions npz_missing_member_rejected.
+Proof. exact npz_missing_member_partial_proof. Qed.
+Print Assumptions npz_missing_member_partial.
 
 Example npz_missing_member_nonvacuous :
-  exists ms, save_members Z w_coo = Ok ms /\ In s_coords (map fst ms).
-Proof. eexists. split; [reflexivity | cbn; auto]. Qed.
+  exists ms, save_members Z w_gcxs_3d = Ok ms /\ In s_indptr (map fst ms)
+             /\ mm_axes_kept Z w_gcxs_3d (fun n => negb (String.eqb n s_indptr)) = true.
+Proof. eexists. split; [reflexivity | split; [cbn; tauto | reflexivity]]. Qed.
+
+Theorem npz_missing_member_refuted :
+  exists (x : arr Z) (ms : members Z) (keep : string -> bool) (y : arr Z),
+    wf Z x = true /\ save_members Z x = Ok ms /\ (exists n, In n (map fst ms) /\ keep n = false) /\
+    load_members Z (restrict Z keep ms) = Ok y /\ y <> as_saved Z x.
+Proof. exact npz_missing_member_refuted_proof. Qed.
+Print Assumptions npz_missing_member_refuted.
 
 (* ---- the container layer, under the oracle assumption on numpy / zipfile (a hypothesis, not an axiom) *)
 Theorem npz_file_roundtrip :
   forall (V bytes : Type) (np_savez : bool -> members V -> bytes) (np_load : bytes -> file V),
-    (forall c ms, np_load (np_savez c ms) = Complete ms) ->
+    (forall c ms, np_load (np_savez c ms) = Archive true ms) ->
     forall (compressed : bool) (x : arr V),
-      wf V x = true -> d9_gcxs_1d V x = true -> d9_csr_csc_subclass V x = true ->
-      (b <- save_npz V bytes np_savez compressed x ;; load_npz V bytes np_load b) = Ok x.
+      wf V x = true ->
+      (b <- save_npz V bytes np_savez compressed x ;; load_npz V bytes np_load b) = Ok (as_saved V x).
 Proof. exact npz_file_roundtrip_proof. Qed.
 Print Assumptions npz_file_roundtrip.
 
+(* np.load cannot open the bytes, or ZipFile.testzip() finds a member that does not verify: rejected, whatever the
+   lazy member reads would have returned *)
 Theorem npz_damaged_rejected :
   forall (V bytes : Type) (np_load : bytes -> file V) (b : bytes),
-    np_load b = Damaged -> exists e, load_npz V bytes np_load b = Raise e.
+    (np_load b = Unreadable \/ exists view, np_load b = Archive false view) ->
+    exists e, load_npz V bytes np_load b = Raise e.
 Proof. exact npz_damaged_rejected_proof. Qed.
 Print Assumptions npz_damaged_rejected.
 
-Theorem npz_loaded_is_complete :
+Theorem npz_loaded_is_verified :
   forall (V bytes : Type) (np_load : bytes -> file V) (b : bytes) (y : arr V),
-    load_npz V bytes np_load b = Ok y -> exists ms, np_load b = Complete ms /\ load_members V ms = Ok y.
-Proof. exact npz_loaded_is_complete_proof. Qed.
-Print Assumptions npz_loaded_is_complete.
+    load_npz V bytes np_load b = Ok y ->
+    exists view, np_load b = Archive true view /\ load_members V view = Ok y.
+Proof. exact npz_loaded_is_verified_proof. Qed.
+Print Assumptions npz_loaded_is_verified.
 
 (* ---- pickle: __reduce_ex__ state (COO.__getstate__ tuple / instance __dict__) fed back to __setstate__ *)
 Theorem pickle_roundtrip :
